@@ -17,6 +17,13 @@ pub enum Backend {
     RingFirst,
     /// FallbackResolver(Default, Ring)
     DefaultFirst,
+    /// default primitives, ciphers behind a pass-through wrapper that does NOT override
+    /// `Cipher::rekey` (what an application's metrics / HSM wrapper looks like): rekeys run the
+    /// trait's provided method
+    PassThrough,
+    /// default primitives, ciphers behind a wrapper that DOES override `Cipher::rekey` with its
+    /// own derivation (allowed by the specification, section 4.2)
+    OwnRekey,
 }
 
 pub const BACKENDS: [Backend; 3] = [Backend::Default, Backend::RingFirst, Backend::DefaultFirst];
@@ -26,6 +33,90 @@ pub fn backend_resolver(b: Backend) -> BoxedCryptoResolver {
         Backend::Default => Box::new(DefaultResolver),
         Backend::RingFirst => Box::new(FallbackResolver::new(Box::new(RingResolver), Box::new(DefaultResolver))),
         Backend::DefaultFirst => Box::new(FallbackResolver::new(Box::new(DefaultResolver), Box::new(RingResolver))),
+        Backend::PassThrough => Box::new(WrapResolver { own_rekey: false }),
+        Backend::OwnRekey => Box::new(WrapResolver { own_rekey: true }),
+    }
+}
+
+/// DefaultResolver whose ciphers sit behind `WrapCipher`.
+pub struct WrapResolver {
+    pub own_rekey: bool,
+}
+
+pub struct WrapCipher {
+    inner: Box<dyn Cipher>,
+    key: [u8; 32],
+    own_rekey: bool,
+}
+
+impl Cipher for WrapCipher {
+    fn name(&self) -> &'static str {
+        self.inner.name()
+    }
+    fn set(&mut self, key: &[u8; 32]) {
+        self.key = *key;
+        self.inner.set(key);
+    }
+    fn encrypt(&self, nonce: u64, authtext: &[u8], plaintext: &[u8], out: &mut [u8]) -> usize {
+        self.inner.encrypt(nonce, authtext, plaintext, out)
+    }
+    fn decrypt(&self, nonce: u64, authtext: &[u8], ciphertext: &[u8], out: &mut [u8]) -> Result<usize, snow::Error> {
+        self.inner.decrypt(nonce, authtext, ciphertext, out)
+    }
+    fn rekey(&mut self) {
+        if self.own_rekey {
+            // this cipher's own REKEY: the specification's default value with the first byte
+            // complemented (any function of the key would do; what matters is that every
+            // session object asks the CIPHER for it)
+            let mut out = [0u8; 48];
+            self.inner.encrypt(u64::MAX, &[], &[0u8; 32], &mut out);
+            let mut k = [0u8; 32];
+            k.copy_from_slice(&out[..32]);
+            k[0] ^= 0xff;
+            self.set(&k);
+        } else {
+            // what the trait's provided method does: written out here because a provided
+            // method cannot be called once overridden - so the pass-through variant uses
+            // `PassCipher` below instead, which does not override it
+            unreachable!()
+        }
+    }
+}
+
+/// Pass-through wrapper WITHOUT a `rekey` override.
+pub struct PassCipher(Box<dyn Cipher>);
+impl Cipher for PassCipher {
+    fn name(&self) -> &'static str {
+        self.0.name()
+    }
+    fn set(&mut self, key: &[u8; 32]) {
+        self.0.set(key);
+    }
+    fn encrypt(&self, nonce: u64, authtext: &[u8], plaintext: &[u8], out: &mut [u8]) -> usize {
+        self.0.encrypt(nonce, authtext, plaintext, out)
+    }
+    fn decrypt(&self, nonce: u64, authtext: &[u8], ciphertext: &[u8], out: &mut [u8]) -> Result<usize, snow::Error> {
+        self.0.decrypt(nonce, authtext, ciphertext, out)
+    }
+}
+
+impl CryptoResolver for WrapResolver {
+    fn resolve_rng(&self) -> Option<Box<dyn Random>> {
+        DefaultResolver.resolve_rng()
+    }
+    fn resolve_dh(&self, c: &DHChoice) -> Option<Box<dyn Dh>> {
+        DefaultResolver.resolve_dh(c)
+    }
+    fn resolve_hash(&self, c: &HashChoice) -> Option<Box<dyn Hash>> {
+        DefaultResolver.resolve_hash(c)
+    }
+    fn resolve_cipher(&self, c: &CipherChoice) -> Option<Box<dyn Cipher>> {
+        let inner = DefaultResolver.resolve_cipher(c)?;
+        if self.own_rekey {
+            Some(Box::new(WrapCipher { inner, key: [0u8; 32], own_rekey: true }))
+        } else {
+            Some(Box::new(PassCipher(inner)))
+        }
     }
 }
 
@@ -440,5 +531,109 @@ impl CryptoResolver for PartialResolver {
         } else {
             None
         }
+    }
+}
+
+
+// ---------------------------------------------------------------------------------------------
+// A DH function with 56-byte keys for names with the `448` DH choice, which no built-in resolver
+// implements (the documented route for it is a custom resolver). It is NOT X448: public key =
+// X25519 public key of the first 32 private bytes followed by 24 derived bytes, shared secret
+// likewise - a consistent toy function that is good enough to exercise FRAMING with a key
+// length other than 32 and 65.
+pub struct Toy448 {
+    privkey: [u8; 56],
+    pubkey: [u8; 56],
+}
+
+impl Toy448 {
+    fn derive(&mut self) {
+        let mut sk = [0u8; 32];
+        sk.copy_from_slice(&self.privkey[..32]);
+        let pk = x25519_dalek::x25519(sk, x25519_dalek::X25519_BASEPOINT_BYTES);
+        self.pubkey[..32].copy_from_slice(&pk);
+        for i in 0..24 {
+            self.pubkey[32 + i] = pk[i] ^ 0x5a;
+        }
+    }
+}
+
+impl Dh for Toy448 {
+    fn name(&self) -> &'static str {
+        "448"
+    }
+    fn pub_len(&self) -> usize {
+        56
+    }
+    fn priv_len(&self) -> usize {
+        56
+    }
+    fn set(&mut self, privkey: &[u8]) {
+        let n = privkey.len().min(56);
+        self.privkey = [0u8; 56];
+        self.privkey[..n].copy_from_slice(&privkey[..n]);
+        self.derive();
+    }
+    fn generate(&mut self, rng: &mut dyn Random) {
+        rng.fill_bytes(&mut self.privkey);
+        self.derive();
+    }
+    fn pubkey(&self) -> &[u8] {
+        &self.pubkey
+    }
+    fn privkey(&self) -> &[u8] {
+        &self.privkey
+    }
+    fn dh(&self, pubkey: &[u8], out: &mut [u8]) -> Result<(), snow::Error> {
+        if pubkey.len() < 56 || out.len() < 56 {
+            return Err(snow::Error::Dh);
+        }
+        // the derived tail is part of the key: a truncated or padded key is not the same key
+        for i in 0..24 {
+            if pubkey[32 + i] != pubkey[i] ^ 0x5a {
+                return Err(snow::Error::Dh);
+            }
+        }
+        let mut sk = [0u8; 32];
+        sk.copy_from_slice(&self.privkey[..32]);
+        let mut pk = [0u8; 32];
+        pk.copy_from_slice(&pubkey[..32]);
+        let shared = x25519_dalek::x25519(sk, pk);
+        out[..32].copy_from_slice(&shared);
+        for i in 0..24 {
+            out[32 + i] = shared[i] ^ 0xa5;
+        }
+        Ok(())
+    }
+}
+
+/// Public key of a `Toy448` private key.
+pub fn toy448_pub(privkey: &[u8]) -> Vec<u8> {
+    let mut t = Toy448 { privkey: [0u8; 56], pubkey: [0u8; 56] };
+    t.set(privkey);
+    t.pubkey.to_vec()
+}
+
+/// DefaultResolver plus `Toy448` for the 448 choice.
+pub struct Toy448Resolver(pub Option<SharedRng>);
+
+impl CryptoResolver for Toy448Resolver {
+    fn resolve_rng(&self) -> Option<Box<dyn Random>> {
+        match &self.0 {
+            Some(r) => Some(Box::new(VRng(r.clone()))),
+            None => DefaultResolver.resolve_rng(),
+        }
+    }
+    fn resolve_dh(&self, c: &DHChoice) -> Option<Box<dyn Dh>> {
+        match c {
+            DHChoice::Curve448 => Some(Box::new(Toy448 { privkey: [0u8; 56], pubkey: [0u8; 56] })),
+            _ => DefaultResolver.resolve_dh(c),
+        }
+    }
+    fn resolve_hash(&self, c: &HashChoice) -> Option<Box<dyn Hash>> {
+        DefaultResolver.resolve_hash(c)
+    }
+    fn resolve_cipher(&self, c: &CipherChoice) -> Option<Box<dyn Cipher>> {
+        DefaultResolver.resolve_cipher(c)
     }
 }
